@@ -100,4 +100,17 @@ int vm_fstat(int fd, struct stat *st);
 void *vm_mmap(void *addr, size_t len, int prot, int flags, int fd, off_t off);
 int vm_munmap(void *addr, size_t len);
 int vm_close(int fd);
+/* ---- System V flavour (-DVK_SYSV), see kernel_ipc.c ---- */
+#ifdef VK_SYSV
+#include <sys/ipc.h>
+#include <sys/sem.h>
+int vm_open_x(const char *path, int flags, ...);
+int vm_stat(const char *path, struct stat *st);
+int vm_unlink(const char *path);
+key_t vm_ftok(const char *path, int proj);
+int vm_semget(key_t key, int nsems, int flg);
+int vm_semctl4(int id, int n, int cmd, int val);
+int vm_semop(int id, struct sembuf *ops, size_t nops);
+int vk_files(void);                          /* key files currently existing */
+#endif
 #endif
